@@ -868,3 +868,43 @@ Example anomaly_run :
         (str "hits"%string, str "4"%string); (str "method"%string, str "POST"%string); (str "logged"%string, str "1"%string)]
   /\ o_hs o = 2.
 Proof. vm_compute. auto. Qed.
+
+(* ------------------------------------------------------------------------------------- *)
+(* derived views (ARGS_COMBINED_SIZE, counts, *_NAMES): functions of the request only    *)
+(* ------------------------------------------------------------------------------------- *)
+
+(* variables whose content comes from the request (everything except TX, MATCHED_VAR, MATCHED_VAR_NAME) *)
+Definition request_var (v : var) : bool :=
+  match v with VTx | VMatchedVar | VMatchedVarName => false | _ => true end.
+
+Lemma coll_all_stateless v rq post s s' : request_var v = true -> coll_all v rq post s = coll_all v rq post s'.
+Proof. destruct v; cbn; intros H; try reflexivity; discriminate. Qed.
+
+(* whatever the transaction state is - whatever happened earlier in this transaction, and (the
+   state being the only carrier) in any earlier one - a target over a request variable selects the
+   same entries: all / by key / by regex key / with exclusions / as a count *)
+Lemma select_stateless t rq post s s' : request_var (t_var t) = true -> select t rq post s = select t rq post s'.
+Proof.
+  intros H. unfold select.
+  assert (Hf : find t rq post s = find t rq post s'); [|rewrite Hf; reflexivity].
+  unfold find. rewrite (coll_all_stateless _ rq post s s' H).
+  destruct (t_rx t); [reflexivity|]. destruct (t_key t); [|reflexivity].
+  destruct (is_single_var (t_var t)); [reflexivity|].
+  destruct (t_var t); try reflexivity; discriminate.
+Qed.
+
+Lemma combined_size_spec rq post s :
+  select (mkT VArgsCombinedSize None [] false None) rq post s
+  = [mkE VArgsCombinedSize [] (itoa (N.of_nat (kv_size (q_get rq ++ if post then q_post rq else []))))].
+Proof. reflexivity. Qed.
+
+Lemma kv_size_perm l l' : Permutation l l' -> kv_size l = kv_size l'.
+Proof. unfold kv_size. induction 1; cbn in *; lia. Qed.
+
+(* the size is NOT a function of the number of names: a memo validated by the key count is unsound *)
+Lemma size_not_function_of_name_count :
+  exists l l', List.length l = List.length l' /\ map fst l = map fst l' /\ kv_size l <> kv_size l'.
+Proof.
+  exists [(str "q"%string, str "1"%string)], [(str "q"%string, str "1234567890"%string)].
+  repeat split. vm_compute. discriminate.
+Qed.
